@@ -56,6 +56,7 @@ Lemma src_guard_spec t c : src_guard t c = (t <=? c). Proof. reflexivity. Qed.
 Lemma tr_guard_spec t c : tr_guard t c = (t <=? c). Proof. reflexivity. Qed.
 Lemma win_guard_spec t c : win_guard t c = (t <=? c). Proof. reflexivity. Qed.
 Lemma st_guard_spec t c : st_guard t c = (t <=? c). Proof. reflexivity. Qed.
+Lemma tw_guard_spec t c : tw_guard t c = (t <=? c). Proof. reflexivity. Qed.
 
 (* a node whose guard time has reached t is not stepped again *)
 Lemma step_blocked fuel g i t st nd ns :
@@ -64,7 +65,7 @@ Lemma step_blocked fuel g i t st nd ns :
 Proof.
   intros Hg Hs Ht. simpl. rewrite Hg, Hs.
   assert (E : (t <=? ntime ns) = true) by (apply Z.leb_le; lia).
-  destruct nd; rewrite ?src_guard_spec, ?tr_guard_spec, ?win_guard_spec, ?st_guard_spec, E; reflexivity.
+  destruct nd; rewrite ?src_guard_spec, ?tr_guard_spec, ?win_guard_spec, ?st_guard_spec, ?tw_guard_spec, E; reflexivity.
 Qed.
 
 (* the state of a node whose guard time has reached t is frozen, whatever is stepped at time t *)
@@ -78,7 +79,7 @@ Proof.
   destruct (nth_error (gnodes st) i) as [nsi|] eqn:Hi; [|exact Hj].
   assert (Hneq : (t <=? ntime nsi) = false -> i <> j).
   { intros E Heq. subst j. rewrite Hi in Hj. inversion Hj; subst. apply Z.leb_gt in E. lia. }
-  destruct nd as [q|f p|w s p|u p].
+  destruct nd as [q|f p|w s p|u p|p1 p2].
   - rewrite src_guard_spec. destruct (t <=? ntime nsi) eqn:E; cbn [fst]; auto.
     rewrite nth_put_neq; auto.
   - rewrite tr_guard_spec. destruct (t <=? ntime nsi) eqn:E; cbn [fst]; auto.
@@ -102,6 +103,16 @@ Proof.
     destruct e; cbn [fst]; auto.
     destruct (nth_error (gnodes st1) i) as [ns1|]; cbn [fst]; auto.
     destruct (stateful_post u t (rdd_of st1 p) ns1) as [n2 e2]. cbn [fst].
+    rewrite nth_put_neq; auto.
+  - rewrite tw_guard_spec. destruct (t <=? ntime nsi) eqn:E; cbn [fst]; auto.
+    pose proof (IH g p1 t st j ns Hj Ht) as IH1.
+    destruct (step fuel g p1 t st) as [st1 e]. cbn [fst] in IH1.
+    destruct e; cbn [fst]; auto.
+    pose proof (IH g p2 t st1 j ns IH1 Ht) as IH2.
+    destruct (step fuel g p2 t st1) as [st2 e']. cbn [fst] in IH2.
+    destruct e'; cbn [fst]; auto.
+    destruct (nth_error (gnodes st2) i) as [ns2|]; cbn [fst]; auto.
+    destruct (union_post t (rdd_of st2 p1) (rdd_of st2 p2) ns2) as [n2 e2]. cbn [fst].
     rewrite nth_put_neq; auto.
 Qed.
 
@@ -217,6 +228,35 @@ Proof.
   now rewrite put_put.
 Qed.
 
+Lemma step_union_go fuel g i t st p1 p2 ns nd1 ns1 nd2 ns2 :
+  nth_error g i = Some (Union p1 p2) -> nth_error (gnodes st) i = Some ns -> ntime ns < t ->
+  nth_error g p1 = Some nd1 -> nth_error (gnodes st) p1 = Some ns1 -> t <= ntime ns1 ->
+  nth_error g p2 = Some nd2 -> nth_error (gnodes st) p2 = Some ns2 -> t <= ntime ns2 ->
+  step (S (S fuel)) g i t st =
+    (let '(n2, e2) := union_post t (nrdd ns1) (nrdd ns2) ns in (put i n2 st, e2)).
+Proof.
+  intros Hg Hs Ht Hg1 Hs1 Ht1 Hg2 Hs2 Ht2.
+  assert (E : step (S (S fuel)) g i t st =
+    (let '(st1, e) := step (S fuel) g p1 t st in
+     match e with
+     | Some _ => (st1, e)
+     | None =>
+         let '(st2, e') := step (S fuel) g p2 t st1 in
+         match e' with
+         | Some _ => (st2, e')
+         | None => match nth_error (gnodes st2) i with
+                   | Some ns0 => let '(n2, e2) := union_post t (rdd_of st2 p1) (rdd_of st2 p2) ns0 in (put i n2 st2, e2)
+                   | None => (st2, Some "BadGraph"%string)
+                   end
+         end
+     end)).
+  { cbn [step]. rewrite Hg, Hs, tw_guard_spec, guard_false by auto. reflexivity. }
+  rewrite E.
+  rewrite (step_blocked fuel g p1 t st nd1 ns1 Hg1 Hs1 Ht1).
+  rewrite (step_blocked fuel g p2 t st nd2 ns2 Hg2 Hs2 Ht2).
+  cbv zeta. rewrite Hs, (rdd_of_nth _ _ _ Hs1), (rdd_of_nth _ _ _ Hs2). reflexivity.
+Qed.
+
 (* ---------- strictly increasing tick times ---------- *)
 Fixpoint increasing (T : Z) (ts : list Z) : Prop :=
   match ts with [] => True | t :: ts' => T < t /\ increasing t ts' end.
@@ -261,7 +301,7 @@ Proof.
   cbn [step].
   destruct (nth_error g i) as [nd|]; [|reflexivity].
   destruct (nth_error (gnodes st) i) as [nsi|]; [|reflexivity].
-  destruct nd as [q|f p|w s p|u p].
+  destruct nd as [q|f p|w s p|u p|p1 p2].
   - destruct (src_guard t (ntime nsi)); cbn [fst]; auto. apply put_length.
   - destruct (tr_guard t (ntime nsi)); cbn [fst]; auto.
     specialize (IH g p t st). destruct (step fuel g p t st) as [st1 e]. cbn [fst] in IH.
@@ -281,6 +321,13 @@ Proof.
     destruct e; cbn [fst]; auto.
     destruct (nth_error (gnodes st1) i) as [ns1|]; cbn [fst]; auto.
     destruct (stateful_post u t (rdd_of st1 p) ns1) as [n2 e2]. cbn [fst]. now rewrite put_length.
+  - destruct (tw_guard t (ntime nsi)); cbn [fst]; auto.
+    pose proof (IH g p1 t st) as IH1. destruct (step fuel g p1 t st) as [st1 e]. cbn [fst] in IH1.
+    destruct e; cbn [fst]; auto.
+    pose proof (IH g p2 t st1) as IH2. destruct (step fuel g p2 t st1) as [st2 e']. cbn [fst] in IH2.
+    destruct e'; cbn [fst]; [lia|].
+    destruct (nth_error (gnodes st2) i) as [ns2|]; cbn [fst]; [|lia].
+    destruct (union_post t (rdd_of st2 p1) (rdd_of st2 p2) ns2) as [n2 e2]. cbn [fst]. rewrite put_length. lia.
 Qed.
 
 Definition times_le (T : Z) (st : gstate) : Prop :=
@@ -309,6 +356,8 @@ Proof.
 Qed.
 Lemma trans_post_time f t pr n : ntime (fst (fst (trans_post f t pr n))) = t.
 Proof. unfold trans_post. destruct (is_none_rdd pr); [reflexivity|]. destruct (apply_tfun f t pr) as [[r lg]|e]; reflexivity. Qed.
+Lemma union_post_time t r1 r2 n : ntime (fst (union_post t r1 r2 n)) = t.
+Proof. unfold union_post. destruct (union _); reflexivity. Qed.
 Lemma src_pop_time n : ntime (src_pop n) = ntime n.
 Proof. unfold src_pop. destruct (nqueue n); reflexivity. Qed.
 
@@ -318,7 +367,7 @@ Proof.
   cbn [step].
   destruct (nth_error g i) as [nd|]; [|exact H].
   destruct (nth_error (gnodes st) i) as [nsi|]; [|exact H].
-  destruct nd as [q|f p|w s p|u p].
+  destruct nd as [q|f p|w s p|u p|p1 p2].
   - destruct (src_guard t (ntime nsi)); cbn [fst]; auto.
     apply times_le_put; auto. rewrite src_pop_time. cbn. lia.
   - destruct (tr_guard t (ntime nsi)); cbn [fst]; auto.
@@ -344,6 +393,15 @@ Proof.
     destruct (nth_error (gnodes st1) i) as [ns1|]; cbn [fst]; auto.
     pose proof (stateful_post_time u t (rdd_of st1 p) ns1) as Hp.
     destruct (stateful_post u t (rdd_of st1 p) ns1) as [n2 e2]. cbn [fst] in *.
+    apply times_le_put; auto. lia.
+  - destruct (tw_guard t (ntime nsi)); cbn [fst]; auto.
+    pose proof (IH g p1 t st H) as IH1. destruct (step fuel g p1 t st) as [st1 e]. cbn [fst] in IH1.
+    destruct e; cbn [fst]; auto.
+    pose proof (IH g p2 t st1 IH1) as IH2. destruct (step fuel g p2 t st1) as [st2 e']. cbn [fst] in IH2.
+    destruct e'; cbn [fst]; auto.
+    destruct (nth_error (gnodes st2) i) as [ns2|]; cbn [fst]; auto.
+    pose proof (union_post_time t (rdd_of st2 p1) (rdd_of st2 p2) ns2) as Hp.
+    destruct (union_post t (rdd_of st2 p1) (rdd_of st2 p2) ns2) as [n2 e2]. cbn [fst] in *.
     apply times_le_put; auto. lia.
 Qed.
 
